@@ -3,15 +3,21 @@
    periodic / final saves and the policy extraction.  Save events carry a snapshot. *)
 From Coq Require Import QArith Qminmax Qreduction Qabs List Arith ZArith Bool.
 From MdpaxV Require Import Model.ListUtil Model.QFun Model.MDP Model.Bellman Model.Batching Model.Kernel Model.SemiAsync.
+From MdpaxGen Require Import GenThreshold.
 Import ListNotations.
 Open Scope Q_scope.
 
 Inductive ctest := Span | MaxDiff.
+(* which measure function and which threshold formula a configured test selects comes from the
+   GENERATED file gen/GenThreshold.v (value_iteration._setup_convergence_testing) *)
+Definition measure_of_kind (k : measure_kind) (new old : list Q) : Q :=
+  match k with MKSpan => span_diff new old | MKMaxDiff => maxabs_diff new old | MKPeriodSpan => span_diff new old end.
 Definition measure (t : ctest) (new old : list Q) : Q :=
-  match t with Span => span_diff new old | MaxDiff => maxabs_diff new old end.
-
-(* value_iteration._setup_convergence_testing (both tests use the same lambda) *)
-Definition vi_threshold (g eps : Q) : Q := if Qeq_bool g 1 then eps else Qred (eps * (1 - g) / g).
+  measure_of_kind (match t with Span => test_vi_span | MaxDiff => test_vi_max_diff end) new old.
+Definition vi_threshold (t : ctest) (g eps : Q) : Q :=
+  Qred (match t with Span => thr_vi_span eps g | MaxDiff => thr_vi_max_diff eps g end).
+Definition rvi_threshold (eps : Q) : Q := Qred (thr_rvi eps 1).
+Definition pvi_threshold (g eps : Q) : Q := Qred (thr_pvi eps g).
 
 (* ------------------------------------------------------------------ generic loop *)
 Section Loop.
@@ -53,10 +59,13 @@ Section Solvers.
   (* ---------------------------------------------------------------- value iteration *)
   Record vist := { v_vals : list Q; v_iter : nat; v_pol : option (list nat) }.
   Definition vi_init (V0 : list Q) : vist := {| v_vals := V0; v_iter := 0; v_pol := None |}.
-  Definition vi_step (t : ctest) (st : vist) : vist * bool :=
+  Definition vi_incr (st : vist) : vist := {| v_vals := v_vals st; v_iter := S (v_iter st); v_pol := v_pol st |}.
+  (* new_values, conv = self._iteration_step(); self.values = new_values *)
+  Definition vi_sweep_step (t : ctest) (st : vist) : vist * bool :=
     let new := SW (v_vals st) in
-    ({| v_vals := new; v_iter := S (v_iter st); v_pol := v_pol st |},
-     Qltb (measure t new (v_vals st)) (vi_threshold g eps)).
+    ({| v_vals := new; v_iter := v_iter st; v_pol := v_pol st |},
+     Qltb (measure t new (v_vals st)) (vi_threshold t g eps)).
+  Definition vi_step (t : ctest) (st : vist) : vist * bool := vi_sweep_step t (vi_incr st).
   Definition vi_finish (_ : bool) (st : vist) : vist :=
     {| v_vals := v_vals st; v_iter := v_iter st; v_pol := Some (POL (v_vals st)) |}.
   Definition vi_solve (t : ctest) (ckpt : bool) (freq k : nat) (st : vist) :=
@@ -65,12 +74,15 @@ Section Solvers.
   (* ---------------------------------------------------------------- relative value iteration (g = 1) *)
   Record rvist := { r_vals : list Q; r_iter : nat; r_pol : option (list nat); r_gain : Q }.
   Definition rvi_init (V0 : list Q) : rvist := {| r_vals := V0; r_iter := 0; r_pol := None; r_gain := 0 |}.
-  Definition rvi_step (st : rvist) : rvist * bool :=
+  Definition rvi_incr (st : rvist) : rvist :=
+    {| r_vals := r_vals st; r_iter := S (r_iter st); r_pol := r_pol st; r_gain := r_gain st |}.
+  Definition rvi_sweep_step (st : rvist) : rvist * bool :=
     let new0 := SW (r_vals st) in
     let new := map (fun x => Qred (x - r_gain st)) new0 in
-    let sp := span_diff new (r_vals st) in
-    ({| r_vals := new; r_iter := S (r_iter st); r_pol := r_pol st; r_gain := last new 0 |},
-     Qltb sp eps).
+    let sp := measure_of_kind test_rvi new (r_vals st) in
+    ({| r_vals := new; r_iter := r_iter st; r_pol := r_pol st; r_gain := last new 0 |},
+     Qltb sp (rvi_threshold eps)).
+  Definition rvi_step (st : rvist) : rvist * bool := rvi_sweep_step (rvi_incr st).
   Definition rvi_finish (_ : bool) (st : rvist) : rvist :=
     {| r_vals := r_vals st; r_iter := r_iter st; r_pol := Some (POL (r_vals st)); r_gain := r_gain st |}.
   Definition rvi_solve (ckpt : bool) (freq k : nat) (st : rvist) :=
@@ -104,14 +116,17 @@ Section Solvers.
       Some (span_diff new (nth (zmodn (Z.of_nat hidx + 1) (S period)) hist []))
     else
       Some (Qred (fspan (pvi_discounted_deltas hist hidx period iteration) (length new))).
-  Definition pvi_step (st : pvist) : pvist * bool :=
-    let it := S (p_iter st) in
+  Definition pvi_incr (st : pvist) : pvist :=
+    {| p_vals := p_vals st; p_iter := S (p_iter st); p_pol := p_pol st; p_hist := p_hist st; p_hidx := p_hidx st; p_period := p_period st |}.
+  Definition pvi_sweep_step (st : pvist) : pvist * bool :=
+    let it := p_iter st in
     let new := SW (p_vals st) in
     let hidx := zmodn (Z.of_nat (p_hidx st) + 1) (S (p_period st)) in
     let hist := match p_hist st with Some h => ll_set h hidx new | None => [] end in
     let conv := pvi_measure new hist hidx (p_period st) it in
     ({| p_vals := new; p_iter := it; p_pol := p_pol st; p_hist := Some hist; p_hidx := hidx; p_period := p_period st |},
-     match conv with None => false | Some c => Qltb c eps end).
+     match conv with None => false | Some c => Qltb c (pvi_threshold g eps) end).
+  Definition pvi_step (st : pvist) : pvist * bool := pvi_sweep_step (pvi_incr st).
   Definition pvi_finish (clear : bool) (conv : bool) (st : pvist) : pvist :=
     {| p_vals := p_vals st; p_iter := p_iter st; p_pol := Some (POL (p_vals st));
        p_hist := if conv && clear then None else p_hist st; p_hidx := p_hidx st; p_period := p_period st |}.
@@ -124,10 +139,13 @@ Section Solvers.
     Variable perm : nat -> option (list nat).   (* permutation used in sweep number i (0-based), None = fixed order *)
     Record savist := { s_vals : list Q; s_iter : nat; s_pol : option (list nat); s_sweeps : nat }.
     Definition savi_init (V0 : list Q) : savist := {| s_vals := V0; s_iter := 0; s_pol := None; s_sweeps := 0 |}.
-    Definition savi_step (t : ctest) (st : savist) : savist * bool :=
+    Definition savi_incr (st : savist) : savist :=
+      {| s_vals := s_vals st; s_iter := S (s_iter st); s_pol := s_pol st; s_sweeps := s_sweeps st |}.
+    Definition savi_sweep_step (t : ctest) (st : savist) : savist * bool :=
       let new := savi_sweep M n mb d zidx pad_wins padval (perm (s_sweeps st)) g (s_vals st) in
-      ({| s_vals := new; s_iter := S (s_iter st); s_pol := s_pol st; s_sweeps := S (s_sweeps st) |},
-       Qltb (measure t new (s_vals st)) (vi_threshold g eps)).
+      ({| s_vals := new; s_iter := s_iter st; s_pol := s_pol st; s_sweeps := S (s_sweeps st) |},
+       Qltb (measure t new (s_vals st)) (vi_threshold t g eps)).
+    Definition savi_step (t : ctest) (st : savist) : savist * bool := savi_sweep_step t (savi_incr st).
     Definition savi_finish (_ : bool) (st : savist) : savist :=
       {| s_vals := s_vals st; s_iter := s_iter st; s_pol := Some (POL (s_vals st)); s_sweeps := s_sweeps st |}.
     Definition savi_solve (t : ctest) (ckpt : bool) (freq k : nat) (st : savist) :=
@@ -143,7 +161,7 @@ Section Solvers.
     | O => (vals, false)
     | S k' =>
         let new := EV P vals in
-        if Qltb (measure t new vals) (vi_threshold g eps) then (vals, true)
+        if Qltb (measure t new vals) (vi_threshold t g eps) then (vals, true)
         else eval_loop t k' P new
     end.
   (* _initialize_solver_state_elements: policy from the problem, or greedy w.r.t. zero values *)
@@ -153,12 +171,17 @@ Section Solvers.
        pi_iter := 0; pi_last_eval_converged := false |}.
   Definition count_changed (a b : list nat) : nat :=
     length (filter (fun ab => negb (Nat.eqb (fst ab) (snd ab))) (combine a b)).
-  Definition pi_step (t : ctest) (max_eval : nat) (reset : bool) (V0 : list Q) (st : pist) : pist * bool :=
+  Definition pi_incr (st : pist) : pist :=
+    {| pi_vals := pi_vals st; pi_pol := pi_pol st; pi_iter := S (pi_iter st); pi_last_eval_converged := pi_last_eval_converged st |}.
+  (* new_policy, n_changed = self._iteration_step(); self.policy = new_policy *)
+  Definition pi_improve_step (t : ctest) (max_eval : nat) (reset : bool) (V0 : list Q) (st : pist) : pist * bool :=
     let start := if reset then V0 else pi_vals st in
     let '(vals, ok) := eval_loop t max_eval (pi_pol st) start in
     let newpol := POL vals in
-    ({| pi_vals := vals; pi_pol := newpol; pi_iter := S (pi_iter st); pi_last_eval_converged := ok |},
+    ({| pi_vals := vals; pi_pol := newpol; pi_iter := pi_iter st; pi_last_eval_converged := ok |},
      Nat.eqb (count_changed newpol (pi_pol st)) 0).
+  Definition pi_step (t : ctest) (max_eval : nat) (reset : bool) (V0 : list Q) (st : pist) : pist * bool :=
+    pi_improve_step t max_eval reset V0 (pi_incr st).
   Definition pi_finish (_ : bool) (st : pist) : pist := st.
   Definition pi_solve (t : ctest) (max_eval : nat) (reset : bool) (V0 : list Q) (ckpt : bool) (freq k : nat) (st : pist) :=
     solve_gen pist (pi_step t max_eval reset V0) pi_iter ckpt freq pi_finish k st.
